@@ -82,8 +82,15 @@ package v2
 //@ func (*ExecutionConfig).setProposerConfigOptions
 //@   requires validConfig(e) && config != nil && validProposer(proposerConfig)
 //@   ghost src (Array Int Int)
+//@   ghost pos5 (Array Int Int)
+//@   ghost pos6 (Array Int Int)
+//@   ghost uw (Array Int Int)
+//@   at mapstore updated: ghost uw[key] = rangeindex#5
 //@   at call append#1: ghost src[len(relays)] = rangeindex#5
 //@   at call append#2: ghost src[len(relays)] = rangeindex#5
+//@   at call append#1: ghost pos5[rangeindex#5] = len(relays)
+//@   at call append#2: ghost pos5[rangeindex#5] = len(relays)
+//@   at call append#3: ghost pos6[address] = len(relays)
 //@   requires forall k int {config.Relays[k]} :: 0 <= k && k < len(config.Relays) ==> config.Relays[k] != nil
 //@   requires forall j int, k int :: 0 <= j && j < k && k < len(config.Relays) ==> config.Relays[j].Address != config.Relays[k].Address
 //@   loop 1
@@ -96,14 +103,26 @@ package v2
 //@     invariant -1 <= rangeindex#3 && rangeindex#3 < len(config.Relays) && config.Relays == old(config.Relays)
 //@     invariant forall k int {config.Relays[k]} :: 0 <= k && k < len(config.Relays) ==> config.Relays[k].Grace == (k <= rangeindex#3 ? deref(proposerConfig.Grace) : prev(config.Relays[k]).Grace)
 //@   loop 4
+//@     invariant forall d *decimal.Decimal {d.value} :: d > 0 ==> d.value == old(d.value) && d.exp == old(d.exp)
 //@     invariant -1 <= rangeindex#4 && rangeindex#4 < len(config.Relays) && config.Relays == old(config.Relays)
 //@     invariant forall k int {config.Relays[k]} :: 0 <= k && k < len(config.Relays) ==> config.Relays[k].MinValue == (k <= rangeindex#4 ? deref(proposerConfig.MinValue) : prev(config.Relays[k]).MinValue)
 //@   loop 5
+//@     invariant forall d *decimal.Decimal {d.value} :: d > 0 ==> d.value == old(d.value) && d.exp == old(d.exp)
 //@     invariant -1 <= rangeindex#5 && rangeindex#5 < len(config.Relays) && (proposerConfig.ResetRelays ==> len(config.Relays) == 0) && (!proposerConfig.ResetRelays ==> config.Relays == old(config.Relays))
 //@     invariant forall m int {relays[m]} :: 0 <= m && m < len(relays) ==> relays[m] != nil && 0 <= src[m] && src[m] <= rangeindex#5 && relays[m] == config.Relays[src[m]] && !fresh(relays[m]) && !proposerConfig.ResetRelays && !disabledIn(proposerConfig, relays[m].Address) && relays[m].Address == prev(relays[m]).Address && inheritedOK(proposerConfig, relays[m], prev(relays[m]).FeeRecipient, prev(relays[m]).GasLimit, prev(relays[m]).Grace, prev(relays[m]).MinValue, prev(relays[m]).PublicKey)
 //@     invariant forall k int {config.Relays[k]} :: rangeindex#5 < k && k < len(config.Relays) ==> config.Relays[k].Address == prev(config.Relays[k]).Address && config.Relays[k].PublicKey == prev(config.Relays[k]).PublicKey && config.Relays[k].FeeRecipient == orFee(proposerConfig.FeeRecipient, prev(config.Relays[k]).FeeRecipient) && config.Relays[k].GasLimit == orGas(proposerConfig.GasLimit, prev(config.Relays[k]).GasLimit) && config.Relays[k].Grace == orGrace(proposerConfig.Grace, prev(config.Relays[k]).Grace) && config.Relays[k].MinValue == orMin(proposerConfig.MinValue, prev(config.Relays[k]).MinValue)
-//@     invariant forall j int {config.Relays[j]} :: 0 <= j && j <= rangeindex#5 ==> in(updated, config.Relays[j].Address)
+//@     invariant forall j int {in(updated, config.Relays[j].Address)} :: 0 <= j && j <= rangeindex#5 ==> in(updated, config.Relays[j].Address)
+//@     invariant forall a string {in(updated, a)} :: in(updated, a) ==> 0 <= uw[a] && uw[a] <= rangeindex#5 && config.Relays[uw[a]].Address == a
+//@     invariant forall j int {pos5[j]} :: 0 <= j && j <= rangeindex#5 && !disabledIn(proposerConfig, config.Relays[j].Address) ==> 0 <= pos5[j] && pos5[j] < len(relays) && relays[pos5[j]] == config.Relays[j]
 //@   loop 6
+//@     invariant forall d *decimal.Decimal {d.value} :: d > 0 ==> d.value == old(d.value) && d.exp == old(d.exp)
+//@     invariant (proposerConfig.ResetRelays ==> len(config.Relays) == 0) && (!proposerConfig.ResetRelays ==> config.Relays == old(config.Relays))
+//@     invariant forall j int {in(updated, config.Relays[j].Address)} :: 0 <= j && j < len(config.Relays) ==> in(updated, config.Relays[j].Address)
+//@     invariant forall j int {pos5[j]} {config.Relays[j]} :: 0 <= j && j < len(config.Relays) && !disabledIn(proposerConfig, config.Relays[j].Address) ==> 0 <= pos5[j] && pos5[j] < len(relays) && relays[pos5[j]] == config.Relays[j]
+//@     invariant forall a string {in(updated, a)} :: in(updated, a) ==> 0 <= uw[a] && uw[a] < len(config.Relays) && config.Relays[uw[a]].Address == a
+//@     invariant forall m int {relays[m]} :: 0 <= m && m < len(relays) && fresh(relays[m]) ==> !in(updated, relays[m].Address)
+//@     invariant forall m int {relays[m]} :: 0 <= m && m < len(relays) && !fresh(relays[m]) ==> 0 <= src[m] && src[m] < len(config.Relays) && relays[m] == config.Relays[src[m]]
+//@     invariant forall a string {visited(a)} :: visited(a) && !in(updated, a) && !disabledIn(proposerConfig, a) ==> 0 <= pos6[a] && pos6[a] < len(relays) && relays[pos6[a]].Address == a
 //@     invariant forall m int {relays[m]} :: 0 <= m && m < len(relays) ==> relays[m] != nil && !disabledIn(proposerConfig, relays[m].Address) && (fresh(relays[m]) ? addedOK(e, proposerConfig, relays[m], fallbackFeeRecipient, fallbackGasLimit) : (!proposerConfig.ResetRelays && relays[m].Address == prev(relays[m]).Address && inheritedOK(proposerConfig, relays[m], prev(relays[m]).FeeRecipient, prev(relays[m]).GasLimit, prev(relays[m]).Grace, prev(relays[m]).MinValue, prev(relays[m]).PublicKey)))
 //@   // C10: the proposer entry's fee recipient over what was there
 //@   ensures config.FeeRecipient == orFee(proposerConfig.FeeRecipient, old(config.FeeRecipient))
@@ -111,4 +130,70 @@ package v2
 //@   // over previous values, or one that only the proposer entry names with proposer-relay over proposer over top-level over
 //@   // fallback values; no relay that the proposer entry disables is among them
 //@   ensures forall m int {config.Relays[m]} :: 0 <= m && m < len(config.Relays) ==> config.Relays[m] != nil && !disabledIn(proposerConfig, config.Relays[m].Address) && (fresh(config.Relays[m]) ? addedOK(e, proposerConfig, config.Relays[m], fallbackFeeRecipient, fallbackGasLimit) : (!proposerConfig.ResetRelays && config.Relays[m].Address == prev(config.Relays[m]).Address && inheritedOK(proposerConfig, config.Relays[m], prev(config.Relays[m]).FeeRecipient, prev(config.Relays[m]).GasLimit, prev(config.Relays[m]).Grace, prev(config.Relays[m]).MinValue, prev(config.Relays[m]).PublicKey)))
+//@   // only the minimum values inside the relay settings change, never the separately allocated ones of the configuration
+//@   ensures forall d *decimal.Decimal {d.value} :: d > 0 ==> d.value == old(d.value) && d.exp == old(d.exp)
+//@   // a relay that is not new is one of the relays that were there before
+//@   ensures forall m int {config.Relays[m]} :: 0 <= m && m < len(config.Relays) && !fresh(config.Relays[m]) ==> exists j int :: 0 <= j && j < len(old(config.Relays)) && old(config.Relays)[j] == config.Relays[m]
+//@   // an added relay never repeats the address of an inherited one
+//@   ensures !proposerConfig.ResetRelays ==> forall m int, j int {config.Relays[m], old(config.Relays)[j]} :: 0 <= m && m < len(config.Relays) && fresh(config.Relays[m]) && 0 <= j && j < len(old(config.Relays)) ==> old(config.Relays)[j].Address != config.Relays[m].Address
+//@   // completeness: every inherited relay that is not disabled stays (unless reset_relays), and every relay that only the
+//@   // proposer entry names and does not disable is added
+//@   ensures !proposerConfig.ResetRelays ==> forall j int :: 0 <= j && j < len(old(config.Relays)) && !disabledIn(proposerConfig, old(config.Relays)[j].Address) ==> exists m int :: 0 <= m && m < len(config.Relays) && config.Relays[m] == old(config.Relays)[j]
+//@   ensures forall a string :: in(proposerConfig.Relays, a) && !disabledIn(proposerConfig, a) && (proposerConfig.ResetRelays || (forall j int :: 0 <= j && j < len(old(config.Relays)) ==> old(config.Relays)[j].Address != a)) ==> exists m int :: 0 <= m && m < len(config.Relays) && config.Relays[m].Address == a
 //@   modifies config.FeeRecipient, config.Relays, contents(config.Relays[0])
+//@
+//@ // ---- which proposer entry applies: the first whose account expression matches the account name or whose key is the validator's ----
+//@ spec func reMatches(re *regexp.Regexp, name string) bool
+//@ spec func acctNameOf(account e2wtypes.Account) string
+//@ extern (*regexp.Regexp).MatchString
+//@   ensures result == reMatches(re, s)
+//@ func setAccountName
+//@   trusted
+//@   ensures result == acctNameOf(account)
+//@   modifies nothing
+//@ spec func wellFormedP(p *ProposerConfig) bool = p.Account != nil || !iszero(p.Validator)
+//@ spec func matchP(p *ProposerConfig, name string, pubkey phase0.BLSPubKey) bool = p.Account != nil ? reMatches(p.Account, name) : p.Validator == pubkey
+//@
+//@ func (*ExecutionConfig).setProposerSpecificOptions
+//@   requires validConfig(e) && config != nil
+//@   requires forall k int {config.Relays[k]} :: 0 <= k && k < len(config.Relays) ==> config.Relays[k] != nil
+//@   requires forall j int, k int :: 0 <= j && j < k && k < len(config.Relays) ==> config.Relays[j].Address != config.Relays[k].Address
+//@   ghost mi Int = -1
+//@   at call setProposerConfigOptions#1: ghost mi = rangeindex
+//@   loop 1
+//@     invariant -1 <= rangeindex && rangeindex < len(e.Proposers) && mi == -1 && calls(setProposerConfigOptions) == 0
+//@     invariant forall j int {e.Proposers[j]} :: 0 <= j && j <= rangeindex ==> wellFormedP(e.Proposers[j]) && !matchP(e.Proposers[j], acctNameOf(account), pubkey)
+//@   // C10: an error only for an entry without account and validator that is reached before any match
+//@   ensures result != nil ==> calls(setProposerConfigOptions) == 0
+//@   // C10: exactly the first matching entry is applied, none if none matches
+//@   ensures result == nil && mi == -1 ==> calls(setProposerConfigOptions) == 0 && (forall j int {e.Proposers[j]} :: 0 <= j && j < len(e.Proposers) ==> !matchP(e.Proposers[j], acctNameOf(account), pubkey))
+//@   ensures mi != -1 ==> result == nil && 0 <= mi && mi < len(e.Proposers) && matchP(e.Proposers[mi], acctNameOf(account), pubkey) && (forall j int {e.Proposers[j]} :: 0 <= j && j < mi ==> !matchP(e.Proposers[j], acctNameOf(account), pubkey))
+//@   // only the minimum values inside the relay settings change, never the separately allocated ones of the configuration
+//@   ensures forall d *decimal.Decimal {d.value} :: d > 0 ==> d.value == old(d.value) && d.exp == old(d.exp)
+//@   ensures mi == -1 ==> config.FeeRecipient == old(config.FeeRecipient) && config.Relays == old(config.Relays) && (forall k int {config.Relays[k]} :: 0 <= k && k < len(config.Relays) ==> config.Relays[k].Address == prev(config.Relays[k]).Address && config.Relays[k].PublicKey == prev(config.Relays[k]).PublicKey && config.Relays[k].FeeRecipient == prev(config.Relays[k]).FeeRecipient && config.Relays[k].GasLimit == prev(config.Relays[k]).GasLimit && config.Relays[k].Grace == prev(config.Relays[k]).Grace && config.Relays[k].MinValue == prev(config.Relays[k]).MinValue)
+//@   ensures mi != -1 ==> config.FeeRecipient == orFee(e.Proposers[mi].FeeRecipient, old(config.FeeRecipient))
+//@   ensures mi != -1 ==> forall m int {config.Relays[m]} :: 0 <= m && m < len(config.Relays) ==> config.Relays[m] != nil && !disabledIn(e.Proposers[mi], config.Relays[m].Address) && (fresh(config.Relays[m]) ? addedOK(e, e.Proposers[mi], config.Relays[m], fallbackFeeRecipient, fallbackGasLimit) : (!e.Proposers[mi].ResetRelays && config.Relays[m].Address == prev(config.Relays[m]).Address && inheritedOK(e.Proposers[mi], config.Relays[m], prev(config.Relays[m]).FeeRecipient, prev(config.Relays[m]).GasLimit, prev(config.Relays[m]).Grace, prev(config.Relays[m]).MinValue, prev(config.Relays[m]).PublicKey)))
+//@   ensures mi != -1 ==> forall m int {config.Relays[m]} :: 0 <= m && m < len(config.Relays) && !fresh(config.Relays[m]) ==> exists j int :: 0 <= j && j < len(old(config.Relays)) && old(config.Relays)[j] == config.Relays[m]
+//@   ensures mi != -1 && !e.Proposers[mi].ResetRelays ==> forall m int, j int {config.Relays[m], old(config.Relays)[j]} :: 0 <= m && m < len(config.Relays) && fresh(config.Relays[m]) && 0 <= j && j < len(old(config.Relays)) ==> old(config.Relays)[j].Address != config.Relays[m].Address
+//@   ensures mi != -1 && !e.Proposers[mi].ResetRelays ==> forall j int :: 0 <= j && j < len(old(config.Relays)) && !disabledIn(e.Proposers[mi], old(config.Relays)[j].Address) ==> exists m int :: 0 <= m && m < len(config.Relays) && config.Relays[m] == old(config.Relays)[j]
+//@   ensures mi != -1 ==> forall a string :: in(e.Proposers[mi].Relays, a) && !disabledIn(e.Proposers[mi], a) && (e.Proposers[mi].ResetRelays || (forall j int :: 0 <= j && j < len(old(config.Relays)) ==> old(config.Relays)[j].Address != a)) ==> exists m int :: 0 <= m && m < len(config.Relays) && config.Relays[m].Address == a
+//@   modifies config.FeeRecipient, config.Relays, contents(config.Relays[0])
+//@
+//@ // ---- C10: the resolved settings of a validator, in terms of the configuration alone ----
+//@ // an inherited relay (top-level section, kept without reset_relays): proposer-relay over proposer over relay-level default
+//@ // over top-level default over fallback
+//@ spec func finalInherited(e *ExecutionConfig, p *ProposerConfig, r *beaconblockproposer.RelayConfig, fbFee bellatrix.ExecutionAddress, fbGas uint64) bool = in(e.Relays, r.Address) && r.FeeRecipient == orFee(prFee(p, r.Address), orFee(p.FeeRecipient, orFee(e.Relays[r.Address].FeeRecipient, orFee(e.FeeRecipient, fbFee)))) && r.GasLimit == orGas(prGas(p, r.Address), orGas(p.GasLimit, orGas(e.Relays[r.Address].GasLimit, orGas(e.GasLimit, fbGas)))) && r.Grace == orGrace(prGrace(p, r.Address), orGrace(p.Grace, orGrace(e.Relays[r.Address].Grace, orGrace(e.Grace, 0)))) && r.MinValue == orMin(prMin(p, r.Address), orMin(p.MinValue, orMin(e.Relays[r.Address].MinValue, orMin(e.MinValue, decimal.Zero)))) && r.PublicKey == orKey(prKey(p, r.Address), e.Relays[r.Address].PublicKey)
+//@ spec func firstMatch(e *ExecutionConfig, i int, name string, pubkey phase0.BLSPubKey) bool = 0 <= i && i < len(e.Proposers) && matchP(e.Proposers[i], name, pubkey) && (forall j int {e.Proposers[j]} :: 0 <= j && j < i ==> !matchP(e.Proposers[j], name, pubkey))
+//@
+//@ func (*ExecutionConfig).ProposerConfig
+//@   requires validConfig(e)
+//@   ensures result1 == nil ==> result0 != nil
+//@   // no proposer entry matches: top-level defaults over fallback, one relay per entry of the top-level section
+//@   ensures result1 == nil && (forall j int {e.Proposers[j]} :: 0 <= j && j < len(e.Proposers) ==> !matchP(e.Proposers[j], acctNameOf(account), pubkey)) ==> result0.FeeRecipient == orFee(e.FeeRecipient, fallbackFeeRecipient)
+//@   ensures result1 == nil && (forall j int {e.Proposers[j]} :: 0 <= j && j < len(e.Proposers) ==> !matchP(e.Proposers[j], acctNameOf(account), pubkey)) ==> (forall m int {result0.Relays[m]} :: 0 <= m && m < len(result0.Relays) ==> baseOK(e, result0.Relays[m], orFee(e.FeeRecipient, fallbackFeeRecipient), fallbackGasLimit))
+//@   ensures result1 == nil && (forall j int {e.Proposers[j]} :: 0 <= j && j < len(e.Proposers) ==> !matchP(e.Proposers[j], acctNameOf(account), pubkey)) ==> (forall a string :: in(e.Relays, a) ==> exists m int :: 0 <= m && m < len(result0.Relays) && result0.Relays[m].Address == a)
+//@   // the first matching proposer entry decides (by public key or account expression), nothing after it is looked at
+//@   ensures forall i int {e.Proposers[i]} :: result1 == nil && firstMatch(e, i, acctNameOf(account), pubkey) ==> result0.FeeRecipient == orFee(e.Proposers[i].FeeRecipient, orFee(e.FeeRecipient, fallbackFeeRecipient))
+//@   ensures forall i int {e.Proposers[i]} :: result1 == nil && firstMatch(e, i, acctNameOf(account), pubkey) ==> forall m int {result0.Relays[m]} :: 0 <= m && m < len(result0.Relays) ==> result0.Relays[m] != nil && !disabledIn(e.Proposers[i], result0.Relays[m].Address) && ((in(e.Relays, result0.Relays[m].Address) && !e.Proposers[i].ResetRelays) ? finalInherited(e, e.Proposers[i], result0.Relays[m], fallbackFeeRecipient, fallbackGasLimit) : addedOK(e, e.Proposers[i], result0.Relays[m], fallbackFeeRecipient, fallbackGasLimit))
+//@   // and the set of relays is complete: inherited ones unless reset or disabled, plus the proposer's own unless disabled
+//@   ensures forall i int {e.Proposers[i]} :: result1 == nil && firstMatch(e, i, acctNameOf(account), pubkey) ==> forall a string :: ((in(e.Relays, a) && !e.Proposers[i].ResetRelays) || in(e.Proposers[i].Relays, a)) && !disabledIn(e.Proposers[i], a) ==> exists m int :: 0 <= m && m < len(result0.Relays) && result0.Relays[m].Address == a
